@@ -132,7 +132,7 @@ func genXor(thorough bool) {
 	}
 	n := 300
 	if thorough {
-		n = 6000
+		n = 4000
 	}
 	for i := 0; i < n; i++ {
 		bl := rng.Intn(300)
@@ -204,9 +204,10 @@ func randShare() data.SharedKeys {
 }
 
 var (
-	lenHist        = map[int]int{}
-	pairCount      int
-	shortInHistory int
+	lenHist          = map[int]int{}
+	pairCount        int
+	shortInHistory   int
+	noRekeyInChannel int
 )
 
 // doPair: both ends derive the share from (aPriv, bPub) and (bPriv, aPub), starting from the
@@ -331,7 +332,7 @@ func shortPair(bPub data.PublicKey, maxIter int) (data.PrivateKey, data.PublicKe
 func genPairs(thorough bool) {
 	n := 130
 	if thorough {
-		n = 2500
+		n = 1500
 	}
 	for i := 0; i < n; i++ {
 		aP, aPub := freshPair()
@@ -870,7 +871,7 @@ func genHistories(thorough bool) {
 	corpus()
 	nClean, nFault := 40, 30
 	if thorough {
-		nClean, nFault = 1200, 800
+		nClean, nFault = 800, 500
 	}
 	for i := 0; i < nClean; i++ {
 		runHistory(randHistory(8, false), "hist-random-lossless")
@@ -928,11 +929,13 @@ func genChannel(n int) {
 		}
 		for i := 0; i < 5 && bad == ""; i++ {
 			if i == rekeyAt {
-				// pickWait: `if n := s.keyNextSync(); n != nil { s.send <- n }`
-				n := c2.VerifC06KeyNextSync(w.cli, 100000)
+				// the idle tick of a client in channel mode: the REAL pickWait, until it draws a re-key
+				n := c2.VerifC06PickWaitRekey(w.cli, 5000)
 				if n == nil {
-					out.Fail("channel scenario: keyNextSync refused", "channel-setup", nil)
-					return
+					// pickWait never re-keys (any more): nothing to check inside the channel
+					steps = append(steps, map[string]interface{}{"step": "5000 idle ticks drew no re-key"})
+					noRekeyInChannel++
+					continue
 				}
 				if err := up(n); err != nil {
 					out.Fail("channel scenario: re-key Packet failed: "+err.Error(), "channel-setup", nil)
@@ -991,17 +994,18 @@ func main() {
 	out.ShardSize = 40
 	rng = vh.NewRand(fl.Seed)
 	thorough := fl.Tier == "thorough"
+	nc := 3
+	if thorough {
+		nc = 40
+	}
+	genChannel(nc) // first: the representative of every finding comes before the bulk of the random fault histories
 	t0 := time.Now()
 	genHistories(thorough)
 	t1 := time.Now()
 	genPairs(thorough)
 	t2 := time.Now()
 	genXor(thorough)
-	nc := 3
-	if thorough {
-		nc = 40
-	}
-	genChannel(nc)
+	out.Extra("channel_scenarios_without_rekey", noRekeyInChannel)
 	out.Extra("ecdh_x_length_histogram", lenHist)
 	out.Extra("pairs", pairCount)
 	out.Extra("short_secrets_forced_inside_histories", shortInHistory)
